@@ -22,9 +22,10 @@ func (db *DB) AgentAdd(agent *agent.Agent) error {
 	/* check if it's a new db */
 	if db.Existed() {
 
-		/* check if agent already exists */
+		/* the agent has a row from an earlier run (it died, or the teamserver was restarted
+		 * without it): this registration is what has to be restored from now on */
 		if db.AgentExist(int(AgentID)) {
-			return nil
+			return db.AgentUpdate(agent)
 		}
 
 	} else {
